@@ -41,6 +41,9 @@ type C17Case struct {
 	// Duplex (raw reads on an upgraded connection): while the read is blocked, another goroutine has a raw Write
 	// pending under a live context; cancelling the read must not disturb it
 	Duplex bool `json:"duplex,omitempty"`
+	// SendCtxDead (op up-receive): the context that was passed to Upgrade() is cancelled once Upgrade() has returned;
+	// the receive function it returned is governed by its own context argument only
+	SendCtxDead bool `json:"send_ctx_dead,omitempty"`
 }
 
 const c17Bound = 5 * time.Second
@@ -250,6 +253,39 @@ func execC17Client(c C17Case, bound time.Duration) (map[string]bool, error) {
 		return facts, fmt.Errorf("the first, uncancelled exchange did not complete within %v", bound)
 	}
 
+	if c.Op == "up-receive" {
+		// the operation under test is the receive function returned by Upgrade(), called with a context of its own
+		sendCtx, sendCancel := context.WithCancel(context.Background())
+		defer sendCancel()
+		type upRes struct {
+			up  func(context.Context, interface{}) (uint64, varlink.ReadWriterContext, error)
+			err error
+		}
+		upCh := make(chan upRes, 1)
+		go func() {
+			up, e := cli.Upgrade(sendCtx, "x.y.Up", nil)
+			upCh <- upRes{up, e}
+		}()
+		if _, rerr := srvReadFrame(srv, bound); rerr != nil {
+			return facts, fmt.Errorf("the upgrade request did not reach the peer: %v", rerr)
+		}
+		select {
+		case ur := <-upCh:
+			if ur.err != nil {
+				return facts, fmt.Errorf("Upgrade() under a live context failed: %v", ur.err)
+			}
+			receive = func(ctx context.Context, out interface{}) (uint64, error) {
+				fl, _, e := ur.up(ctx, out)
+				return fl, e
+			}
+		case <-time.After(bound):
+			return facts, fmt.Errorf("Upgrade() did not return within %v although the peer had read the request", bound)
+		}
+		if c.SendCtxDead {
+			sendCancel()
+			facts["send-context-cancelled-after-send"] = true
+		}
+	}
 	writeOp := c.Op == "send" || c.Op == "up-write"
 	ctx, fire, cancel, deadlineAt := makeCtx(c.Trigger, c.Instant, writeOp)
 	defer cancel()
@@ -295,7 +331,7 @@ func execC17Client(c C17Case, bound time.Duration) (map[string]bool, error) {
 
 	op := func() opResult {
 		switch c.Op {
-		case "receive":
+		case "receive", "up-receive":
 			var out json.RawMessage
 			fl, e := receive(ctx, &out)
 			return opResult{flags: fl, err: e, data: out}
@@ -403,7 +439,7 @@ func execC17Client(c C17Case, bound time.Duration) (map[string]bool, error) {
 			return facts, fmt.Errorf("%s on %s: everything the operation needed was available, but it failed: %v", c.Op, c.Transport, res.err)
 		}
 		switch c.Op {
-		case "receive", "call":
+		case "receive", "call", "up-receive":
 			if d := JSONDiff([]byte(`{"n":1,"pad":"`+string(bytes.Repeat([]byte("p"), 40))+`"}`), res.data); d != "" {
 				return facts, fmt.Errorf("%s: completed with wrong data: %s", c.Op, d)
 			}
@@ -984,7 +1020,7 @@ var propC17 = Register(Prop[C17Case]{ID: "C17", Name: "C17", Pending: true, Chec
 func c17Cells() []C17Case {
 	var cells []C17Case
 	for _, tr := range []string{"unix", "tcp", "pipe", "bridge"} {
-		for _, op := range []string{"receive", "call", "send", "up-read", "up-readbytes", "up-write"} {
+		for _, op := range []string{"receive", "call", "send", "up-read", "up-readbytes", "up-write", "up-receive"} {
 			for _, trig := range []string{"cancel", "deadline", "none"} {
 				for _, inst := range []string{"before", "blocked", "partial", "after"} {
 					if trig == "none" && inst != "after" {
@@ -997,6 +1033,9 @@ func c17Cells() []C17Case {
 						continue // Call's reply cannot arrive before its request was sent
 					}
 					cells = append(cells, C17Case{Side: "client", Op: op, Transport: tr, Trigger: trig, Instant: inst, Partial: 17, Follow: 2})
+					if op == "up-receive" {
+						cells = append(cells, C17Case{Side: "client", Op: op, Transport: tr, Trigger: trig, Instant: inst, Partial: 17, Follow: 2, SendCtxDead: true})
+					}
 					if inst == "partial" && op != "call" {
 						cells = append(cells, C17Case{Side: "client", Op: op, Transport: tr, Trigger: trig, Instant: inst, Partial: 17, Follow: 2, Coalesced: true})
 					}
